@@ -82,17 +82,19 @@ theorem test_defined_iff_entered (ops : List Op) (a b : Cst) :
 example : test (run [.mergeC 1 2]) 1 3 = .error .key := by rfl
 
 /-- The answer of `test` does not depend on the order in which equations were merged or terms
-added (nor on repetitions): two operation sequences with the same members give the same answer
-to every query, including the KeyError for constants never entered. -/
-theorem order_independent (ops1 ops2 : List Op) (hperm : ∀ op, op ∈ ops1 ↔ op ∈ ops2) (a b : Cst) :
+added, on repetitions, on the orientation in which an equation was merged (`merge(a, b)` or
+`merge(b, a)`), nor on which terms were added beforehand by `add_var`: two operation sequences
+that merge the same equations up to symmetry and enter the same constants give the same answer to
+every query, including the KeyError for constants never entered. -/
+theorem order_independent (ops1 ops2 : List Op)
+    (hC : ∀ a b, (Op.mergeC a b ∈ ops1 ∨ Op.mergeC b a ∈ ops1) ↔ (Op.mergeC a b ∈ ops2 ∨ Op.mergeC b a ∈ ops2))
+    (hF : ∀ a1 a2 a, Op.mergeF a1 a2 a ∈ ops1 ↔ Op.mergeF a1 a2 a ∈ ops2)
+    (hD : ∀ c, entered ops1 c ↔ entered ops2 c) (a b : Cst) :
     test (run ops1) a b = test (run ops2) a b := by
-  have hE : ∀ q, eqsOf ops1 q ↔ eqsOf ops2 q := by
-    intro q; cases q <;> simp only [eqsOf] <;> exact hperm _
-  have hD : ∀ c, entered ops1 c ↔ entered ops2 c := by
-    intro c
-    constructor
-    · rintro ⟨op, h1, h2⟩; exact ⟨op, (hperm op).1 h1, h2⟩
-    · rintro ⟨op, h1, h2⟩; exact ⟨op, (hperm op).2 h1, h2⟩
+  have h12 : ∀ x y, Cl (eqsOf ops1) x y → Cl (eqsOf ops2) x y := fun x y =>
+    Cl.mono_sym (fun a b h => (hC a b).1 (.inl h)) (fun a1 a2 a h => (hF a1 a2 a).1 h)
+  have h21 : ∀ x y, Cl (eqsOf ops2) x y → Cl (eqsOf ops1) x y := fun x y =>
+    Cl.mono_sym (fun a b h => (hC a b).2 (.inl h)) (fun a1 a2 a h => (hF a1 a2 a).2 h)
   by_cases hab : entered ops1 a ∧ entered ops1 b
   · have hab2 : entered ops2 a ∧ entered ops2 b := ⟨(hD a).1 hab.1, (hD b).1 hab.2⟩
     obtain ⟨v1, h1⟩ := (test_defined_iff_entered ops1 a b).2 hab
@@ -100,20 +102,34 @@ theorem order_independent (ops1 ops2 : List Op) (hperm : ∀ op, op ∈ ops1 ↔
     rw [h1, h2]
     congr 1
     cases v1 <;> cases v2 <;> try rfl
-    · have := test_complete ops1 a b hab.1 hab.2 ((Cl.congr_set hE).2 (test_sound ops2 a b h2))
+    · have := test_complete ops1 a b hab.1 hab.2 (h21 _ _ (test_sound ops2 a b h2))
       rw [h1] at this; cases this
-    · have := test_complete ops2 a b hab2.1 hab2.2 ((Cl.congr_set hE).1 (test_sound ops1 a b h1))
+    · have := test_complete ops2 a b hab2.1 hab2.2 (h12 _ _ (test_sound ops1 a b h1))
       rw [h2] at this; cases this
-  · have e1 : test (run ops1) a b = .error .key := by
-      cases h : test (run ops1) a b with
-      | ok v => exact absurd ((test_defined_iff_entered ops1 a b).1 ⟨v, h⟩) hab
-      | error e => cases e <;> first | rfl | (simp [test] at h; split at h <;> simp at h)
+  · have key : ∀ ops, ¬ (entered ops a ∧ entered ops b) → test (run ops) a b = .error .key := by
+      intro ops hn
+      have K := run_keysIn ops
+      apply test_error_of_not_dom
+      by_cases ha : Dom (run ops) a
+      · right; intro hb; exact hn ⟨K.rep a ha, K.rep b hb⟩
+      · exact .inl ha
     have hab2 : ¬ (entered ops2 a ∧ entered ops2 b) := fun h => hab ⟨(hD a).2 h.1, (hD b).2 h.2⟩
-    have e2 : test (run ops2) a b = .error .key := by
-      cases h : test (run ops2) a b with
-      | ok v => exact absurd ((test_defined_iff_entered ops2 a b).1 ⟨v, h⟩) hab2
-      | error e => cases e <;> first | rfl | (simp [test] at h; split at h <;> simp at h)
-    rw [e1, e2]
+    rw [key ops1 hab, key ops2 hab2]
+
+/- non-vacuity: other order, both constant equations flipped, a redundant `add_var` in between,
+one equation merged twice: same answer `True` for (3, 6). -/
+example : test (run [.mergeC 5 2, .add 3, .mergeC 4 1, .mergeF 4 5 6, .mergeC 4 1, .mergeF 1 2 3]) 3 6 = .ok true := by rfl
+
+/-- Corollary: two operation sequences with the same members (any order, any repetitions). -/
+theorem order_independent_perm (ops1 ops2 : List Op) (hperm : ∀ op, op ∈ ops1 ↔ op ∈ ops2) (a b : Cst) :
+    test (run ops1) a b = test (run ops2) a b := by
+  apply order_independent
+  · intro x y; rw [hperm, hperm]
+  · intro a1 a2 a; exact hperm _
+  · intro c
+    constructor
+    · rintro ⟨op, h1, h2⟩; exact ⟨op, (hperm op).1 h1, h2⟩
+    · rintro ⟨op, h1, h2⟩; exact ⟨op, (hperm op).2 h1, h2⟩
 
 /- non-vacuity: the reversed sequence has the same members; both answer `True` for (3, 6). -/
 example : test (run [.mergeC 2 5, .mergeC 1 4, .mergeF 4 5 6, .mergeF 1 2 3]) 3 6 = .ok true := by rfl
